@@ -28,6 +28,8 @@ CONSTANTS
 ZeroE == [c |-> 0, ua |-> 0, cp |-> 0, cm |-> 0, z |-> 0, lo |-> 0, hi |-> 0,
           cc |-> 0, cs |-> 0, cbo |-> 0, ns |-> 0, big |-> 0]
 
+BadE == [ZeroE EXCEPT !.big = 1]
+
 Garbage == -1    \* guest block whose bytes are neither zeros nor a whole stamp
 NoTok   == -2    \* unreadable: mapping is broken
 
@@ -72,12 +74,13 @@ L2E(img, g, gc) ==
       j  == gc % g.l2n
       l1 == IF i < L1N(img) THEN L1E(img, g, i) ELSE ZeroE
   IN IF l1.c = 0 THEN ZeroE
+     ELSE IF l1.big = 1 THEN BadE    \* table offset out of any file's reach: unreadable
      ELSE BPtr(img, l1.c * g.bpc + (j \div g.epb), j % g.epb)
 
 StoredRc(img, g, c) ==
   LET rt == RtE(img, g, c \div g.rbn)
       j  == c % g.rbn
-  IN IF rt.c = 0 THEN 0
+  IN IF rt.c = 0 \/ rt.big = 1 THEN 0
      ELSE BRc(img, rt.c * g.bpc + (j \div g.rpb), j % g.rpb)
 
 \* well-formedness of the three pointer kinds (reserved bits, alignment)
@@ -112,7 +115,7 @@ TabNZ(img, g, c0, n) ==
 ActiveL1(img)    == 0 .. L1N(img) - 1
 L1NZ(img, g)     == { i \in TabNZ(img, g, L1C(img), TabClusters(g, L1N(img))) : i < L1N(img) }
 RtNZ(img, g)     == TabNZ(img, g, RTC(img), RTN(img))
-L2Tables(img, g) == { i \in L1NZ(img, g) : L1E(img, g, i).c # 0 }
+L2Tables(img, g) == { i \in L1NZ(img, g) : L1E(img, g, i).c # 0 /\ L1E(img, g, i).big = 0 }
 \* guest clusters with a non-zero L2 entry
 MappedGC(img, g) ==
   UNION { { i * g.l2n + j : j \in TabNZ(img, g, L1E(img, g, i).c, 1) } : i \in L2Tables(img, g) }
@@ -138,7 +141,7 @@ RcNonZero(img, g) ==
   UNION { UNION { { i * g.rbn + k * g.rpb + x :
                       x \in BRcDom(img, RtE(img, g, i).c * g.bpc + k) } :
                   k \in 0 .. g.bpc - 1 } :
-          i \in { i \in RtNZ(img, g) : RtE(img, g, i).c # 0 } }
+          i \in { i \in RtNZ(img, g) : RtE(img, g, i).c # 0 /\ RtE(img, g, i).big = 0 } }
 
 ---------------------------------------------------------------------------
 (* Structural validity *)
@@ -151,10 +154,10 @@ TablesOK(img, g) ==
   /\ \A k \in 0 .. RTN(img) - 1 : ClusterTableLike(img, g, RTC(img) + k)
   /\ \A i \in L1NZ(img, g) :
         /\ L1EntryWF(L1E(img, g, i))
-        /\ L1E(img, g, i).c # 0 => ClusterTableLike(img, g, L1E(img, g, i).c)
+        /\ (L1E(img, g, i).c # 0 /\ L1E(img, g, i).big = 0) => ClusterTableLike(img, g, L1E(img, g, i).c)
   /\ \A i \in RtNZ(img, g) :
         /\ RtEntryWF(RtE(img, g, i))
-        /\ RtE(img, g, i).c # 0 => ClusterTableLike(img, g, RtE(img, g, i).c)
+        /\ (RtE(img, g, i).c # 0 /\ RtE(img, g, i).big = 0) => ClusterTableLike(img, g, RtE(img, g, i).c)
   /\ \A gc \in MappedGC(img, g) : L2EntryWF(L2E(img, g, gc))
 
 \* C03: valid image with exact refcounts
